@@ -108,8 +108,8 @@ Proof.
     split; [reflexivity|]. unfold abs, set_iso, set_sisos. simpl. f_equal.
     induction (isos d) as [|x l IH]; simpl; auto.
     destruct (i_id x =? i) eqn:Ex; simpl.
-    + rewrite Ex. simpl. apply IH.
-    + rewrite Ex. simpl. f_equal; [|apply IH].
+    + Show. apply IH.
+    + f_equal; [|apply IH].
       unfold abs_iso. simpl. apply Z.eqb_neq in Ex.
       rewrite (filter_filter_other _ p_own i (i_id x)), (filter_filter_other _ d_iso i (i_id x)); auto.
   - split; reflexivity.
